@@ -140,7 +140,7 @@ def declare(reg):
                  ensures={"removed": "self.g_keys == old(self.g_keys) - {key}"}, modifies=["self.g_keys"],
                  trusted=True, yields=True, note="A-MH: mailbox.MH.remove deletes exactly that message file (asimap.mh.MH.aremove wraps it in a thread)")
     reg.contract(P, "Mailbox._dispatch_or_pend_notifications",
-                 params={"self": "ref:Mailbox", "notifications": "str", "dont_notify": "opt[ref:Authenticated]"},
+                 params={"self": "ref:Mailbox", "notifications": "StrOrList", "dont_notify": "opt[ref:Authenticated]"},
                  modifies=["*.pending_notifications"], trusted=True, yields=True,
                  note="assumed here (pushes or queues, touches only clients' pending_notifications); proved separately under C01")
     reg.contract(P, "Mailbox.commit_to_db", params={"self": "ref:Mailbox"}, trusted=True, yields=True,
@@ -194,9 +194,11 @@ def declare(reg):
             "idx-uids": "index_of(self._uid_to_idx, self.uids)",
             "seqs": f"forall(lambda s, k: mem(self.sequences, s, k) == (mem(old(self.sequences), s, k) and not {D}), 'str', 'int')",
             "disk": f"forall(lambda k: (k in self.mailbox.g_keys) == (k in old(self.mailbox.g_keys) and not {D}))",
+            # C13 (b): once messages were removed, .mh_sequences mentions no removed message and equals the in-memory flags
+            "disk-seqs": f"implies(exists(lambda k: {D}), forall(lambda s, k: mem(self.mailbox.g_seqs, s, k) == mem(self.sequences, s, k), 'str', 'int'))",
         },
         modifies=["self.msg_keys", "self.uids", "self.num_msgs", "self.num_recent", "self._msg_key_to_idx", "self._uid_to_idx",
-                  "self.sequences", "self.optional_resync", "*.pending_notifications", "MH.g_keys"],
+                  "self.sequences", "self.optional_resync", "*.pending_notifications", "MH.g_keys", "MH.g_seqs"],
         loops={
             0: {"invariant": {
                 "picked": "forall(lambda k: (k in to_delete) == (k in self.msg_keys and uid_at(self, k) in some(uid_msg_set) and pos(some(uid_msg_set), uid_at(self, k)) < _i))",
@@ -228,3 +230,94 @@ def declare(reg):
     b = reg.properties.setdefault("C05", {}).setdefault("bounded", [])
     b.append({"name": "expunge-real-folder", "module": "harness.mboxops", "func": "Expunge"})
     b.append({"name": "uid-expunge-e2e", "module": "harness.e2e", "func": "UidExpunge"})
+
+    # ---- check_new_msgs_and_flags (C02 allocation, C13 delivery) ----------------------
+    reg.contract(
+        P, "Mailbox.marked", params={"self": "ref:Mailbox", "mark": "bool"}, ret="bool",
+        ensures={"marked": "ite(mark, '\\\\Marked' in self.attributes, '\\\\Unmarked' in self.attributes)",
+                 "others": "forall(lambda a: implies(a != '\\\\Marked' and a != '\\\\Unmarked', (a in self.attributes) == (a in old(self.attributes))), 'str')"},
+        modifies=["self.attributes"], uses_invariant=False, props=["C13"],
+    )
+    T = dict(trusted=True)
+    reg.contract(P, "Mailbox.get_actual_mtime", params={"mh": "ref:MH", "name": "str"}, ret="int", yields=True, **T,
+                 note="A-OS: max mtime of the folder directory and its .mh_sequences")
+    reg.contract(P, "Mailbox.update_mtime_in_db", params={"self": "ref:Mailbox"}, yields=True, **T, note="assumed: SQL UPDATE of mtime only")
+    reg.contract("<stdlib>", "MH.keys", params={"self": "ref:MH"}, ret="list[int]",
+                 ensures={"asc": "asc(result)", "all": "elems(result) == self.g_keys", "count": "len(result) == card(self.g_keys)", "pos": "forall(lambda j: implies(0 <= j and j < len(result), result[j] >= 1))"},
+                 **T, note="A-MH: mailbox.MH.keys() lists the message files in ascending order")
+    reg.contract(P, "Mailbox.get_sequences_from_folder", params={"self": "ref:Mailbox"}, ret="defaultdict[str,set[int]]",
+                 ensures={"disk": "forall(lambda s, k: mem(result, s, k) == mem(self.mailbox.g_seqs, s, k), 'str', 'int')",
+                          "existing-only": "forall(lambda s, k: implies(mem(result, s, k), k in self.mailbox.g_keys), 'str', 'int')"},
+                 **T, note="A-MH: MH.get_sequences returns the .mh_sequences content restricted to existing message files (CPython mailbox.py)")
+    reg.contract(P, "Mailbox.set_sequences_in_folder", params={"self": "ref:Mailbox", "seqs": "defaultdict[str,set[int]]"},
+                 ensures={"written": "forall(lambda s, k: mem(self.mailbox.g_seqs, s, k) == mem(seqs, s, k), 'str', 'int')"},
+                 modifies=["MH.g_seqs"], **T, note="A-MH: MH.set_sequences rewrites .mh_sequences with exactly the non-empty sequences given")
+    reg.contract(P, "Mailbox.get_msg", params={"self": "ref:Mailbox", "msg_key": "int"}, ret="opaque:EmailMessage", **T, note="A-EMAIL")
+    reg.contract(P, "Mailbox._generate_fetch_msg_for", params={"self": "ref:Mailbox", "msg_key": "int", "publish_uid": "bool"},
+                 ret="tuple[str,str]", **T, note="assumed here (pure string builder; C07 states its grammar)")
+    reg.contract(P, "Mailbox.check_set_haschildren_attr", params={"self": "ref:Mailbox"}, modifies=["self.attributes"], **T, note="assumed: only attributes")
+    reg.contract("<proxy>", "ClientProxy.push", params={"self": "ref:ClientProxy", "data": "list[str]"}, yields=True, **T,
+                 ghost={"varargs": "data"}, note="A-ASYNC: writes to the client's socket")
+
+    NF = "(s == 'Recent' or ite(s == 'Seen', not mem(msg_seqs, 'unseen', k), mem(msg_seqs, s, k)))"
+    reg.contract(
+        P, "Mailbox.check_new_msgs_and_flags",
+        params={"self": "ref:Mailbox", "dont_notify": "opt[ref:Authenticated]", "optional": "bool"}, ret="bool",
+        requires={
+            # E1 (DESIGN 6.3): outside asimap only new, larger-numbered files appear
+            "E1-superset": "subset(elems(self.msg_keys), self.mailbox.g_keys)",
+            "E1-larger": "forall(lambda k: implies(k in self.mailbox.g_keys and k not in self.msg_keys, forall(lambda j: implies(0 <= j and j < len(self.msg_keys), self.msg_keys[j] < k))))",
+            # the same assumption in list form (the ascending listing of the folder starts with the known keys) and its
+            # finite-cardinality consequences; SMT solvers do not derive pigeonhole facts, so they are stated, not proved
+            "E1-prefix": "forall(lambda L: implies(asc(L) and elems(L) == self.mailbox.g_keys, len(L) >= len(self.msg_keys) and "
+                         "forall(lambda j: implies(0 <= j and j < len(self.msg_keys), L[j] == self.msg_keys[j]))), 'list[int]')",
+            "E1-count": "card(self.mailbox.g_keys - elems(self.msg_keys)) == card(self.mailbox.g_keys) - len(self.msg_keys)",
+        },
+        ensures={
+            # C02
+            "uids-prefix": "len(self.uids) >= len(old(self.uids)) and forall(lambda j: implies(0 <= j and j < len(old(self.uids)), self.uids[j] == old(self.uids)[j]))",
+            "keys-prefix": "len(self.msg_keys) >= len(old(self.msg_keys)) and forall(lambda j: implies(0 <= j and j < len(old(self.msg_keys)), self.msg_keys[j] == old(self.msg_keys)[j]))",
+            "new-uids-consecutive": "forall(lambda j: implies(len(old(self.uids)) <= j and j < len(self.uids), self.uids[j] == old(self.next_uid) + (j - len(old(self.uids)))))",
+            "next-uid": "self.next_uid == old(self.next_uid) + (len(self.uids) - len(old(self.uids)))",
+            "uid-vv": "self.uid_vv == old(self.uid_vv)",
+            # C13
+            "changed-iff-new": "result == (len(self.msg_keys) > len(old(self.msg_keys)))",
+            "sees-all-files": "implies(result, elems(self.msg_keys) == self.mailbox.g_keys)",
+            "old-flags-kept": "forall(lambda s, k: implies(k in old(self.msg_keys), mem(self.sequences, s, k) == mem(old(self.sequences), s, k)), 'str', 'int')",
+            "new-recent": "forall(lambda k: implies(k in self.msg_keys and k not in old(self.msg_keys), mem(self.sequences, 'Recent', k)))",
+            "new-seen-iff-not-unseen": "forall(lambda k: implies(k in self.msg_keys and k not in old(self.msg_keys), mem(self.sequences, 'Seen', k) == (not mem(old(self.mailbox.g_seqs), 'unseen', k))))",
+            "new-other-flags-from-agent": "forall(lambda s, k: implies(k in self.msg_keys and k not in old(self.msg_keys) and s != 'Recent' and s != 'Seen', mem(self.sequences, s, k) == mem(old(self.mailbox.g_seqs), s, k)), 'str', 'int')",
+            "disk-seqs-written": "implies(result, forall(lambda s, k: mem(self.mailbox.g_seqs, s, k) == mem(self.sequences, s, k), 'str', 'int'))",
+        },
+        keeps_invariant=True,
+        modifies=["self.last_resync", "self.mtime", "self.optional_resync", "self.msg_keys", "self.uids", "self.num_msgs", "self.num_recent",
+                  "self.sequences", "self.next_uid", "self._msg_key_to_idx", "self._uid_to_idx", "self.attributes", "MH.g_seqs", "*.pending_notifications"],
+        loops={
+            0: {"invariant": {
+                "flags": f"forall(lambda s, k: mem(self.sequences, s, k) == ite(k in new_msg_keys and pos(new_msg_keys, k) < _i, {NF}, mem(lpre(self.sequences), s, k)), 'str', 'int')",
+                "msg-seqs-kept": "forall(lambda s, k: mem(msg_seqs, s, k) == mem(lpre(msg_seqs), s, k), 'str', 'int')",
+                "msgs-loaded": "forall(lambda k: implies(k in new_msg_keys and pos(new_msg_keys, k) < _i, k in new_msgs))",
+            }},
+            1: {"invariant": {
+                "collected": "forall(lambda s: (s in msg_sequences) == (s == 'Recent' or (mem(msg_seqs, s, key) and s in _it and pos(_it, s) < _i)), 'str')",
+                "msg-seqs-kept": "forall(lambda s, k: mem(msg_seqs, s, k) == mem(lpre(msg_seqs), s, k), 'str', 'int') and dom(msg_seqs) == dom(lpre(msg_seqs))",
+            }},
+            2: {"invariant": {
+                "added": "forall(lambda s, k: mem(self.sequences, s, k) == ite(k == key and s in msg_sequences and pos(_it, s) < _i, True, mem(lpre(self.sequences), s, k)), 'str', 'int')",
+            }},
+            3: {"invariant": {
+                "removed": "forall(lambda s, k: mem(self.sequences, s, k) == ite(k == key and s not in msg_sequences and s in _it and pos(_it, s) < _i, False, mem(lpre(self.sequences), s, k)), 'str', 'int')",
+                "dom": "dom(self.sequences) == dom(lpre(self.sequences))",
+            }},
+            4: {"invariant": {}},
+            5: {"invariant": {}},
+        },
+        locals_={"new_msgs": "dict[int,opaque:EmailMessage]", "notifications": "list[str]", "msg_sequences": "set[str]", "msg_seqs": "defaultdict[str,set[int]]"},
+        props=["C02", "C13"],
+        ghost={"harness": "harness.mboxops:Resync"},
+    )
+    for pid in ("C02", "C13"):
+        reg.properties.setdefault(pid, {}).setdefault("bounded", []).append(
+            {"name": "resync-real-folder", "module": "harness.mboxops", "func": "Resync"})
+    reg.properties.setdefault("C13", {}).setdefault("bounded", []).append(
+        {"name": "expunge-real-folder", "module": "harness.mboxops", "func": "Expunge"})
